@@ -6,7 +6,8 @@ Proved here: the `A` kernel (`A`, `A_64`, `A_128`) for ONE (segment, b) returns 
 1-vs-2 weighting, with every table read in bounds; the segment values add up over EVERY chain of segments; summed over the
 levels this is `Spec.A`, the `A` of `gourdon_decomp`.  NOT proved (correspondence only, streams `easyac_*` of
 pcv/props/c08_easy.py against the mirror AND against the defining sums `NT.A + NT.C`, which are proved `= Spec.A + Spec.C`):
-the `C1` recursion, the `C2` clustered/sparse loops, and the per-segment pruning of levels (`min_a … max_a`, `min_c2 … max_c2`)
+the `C1` recursion, the additivity of `C2` over the segments (the kernel itself IS proved per (segment, b): `ac_C2_segment_eq`),
+and the per-segment pruning of levels (`min_a … max_a`, `min_c2 … max_c2`)
 in `AC_OpenMP` — hence the names `…_partial` below.
 -/
 import PcProofs.EasyACEx
@@ -51,6 +52,31 @@ theorem ac_libdivide_eq_A (k k' : Kern) {t : NT} (hv : t.Valid) {size maxPi low 
       = acAKernel k' t size maxPi low high (x / max low 1) (x / high) (x / p b) y (p b) := by
   rw [acAKernel_eq k hv hb1 hy hhigh hps hsm hmb hm64 hsz hh hh64,
     acAKernel_eq k' hv hb1 hy hhigh hps hsm hmb hm64 hsz hh hh64]
+
+/-- **index lemma of `C2`** (exact): `π min_m < j ≤ π max_m` iff `p j` is a second prime of the level — `prime < p j ≤ min(xp / prime, y)`,
+    `xp / prime² < p j` — whose leaf lies in the segment, `low ≤ xp / p j < high` -/
+theorem ac_C2_index_lemma {x y prime low high j : ℕ} (hp : 0 < prime) (hhigh : 0 < high) (hj1 : 1 ≤ j) :
+    (Nat.primeCounting (min (max (x / high / prime) (max (x / prime / (prime * prime)) prime))
+          (min (x / max low 1 / prime) (min (x / prime / prime) y))) < j ∧
+      j ≤ Nat.primeCounting (min (x / max low 1 / prime) (min (x / prime / prime) y)))
+    ↔ (prime < p j ∧ p j ≤ x / prime / prime ∧ p j ≤ y ∧ x / prime / (prime * prime) < p j) ∧
+        low ≤ x / prime / p j ∧ x / prime / p j < high :=
+  c2_visit_iff hp hhigh hj1
+
+/-- **`C2` for one (segment, b)**, any kernel (AC.cpp 64/128-bit, `C2_64` with libdivide, `C2_128`): the clustered loop (with its
+    `max(xpq2, min_clustered)` clamp) plus the sparse loop return the sum of `π(xp / p j) - b + 2` over `π min_m < j ≤ π max_m`,
+    i.e. (`ac_C2_index_lemma`) over exactly the level's leaves inside the segment; `.ok` = all `primes[·]`, `pi[·]`,
+    `segmentedPi[·]` reads in bounds, no `div` trap, no unsigned wrap, every clustered step makes progress -/
+theorem ac_C2_segment_eq (k : Kern) {t : NT} (hv : t.Valid) {size maxPi low high x y b : ℕ} (hb1 : 1 ≤ b) (hhigh : 0 < high)
+    (hyM : y ≤ maxPi) (hmb : maxPi ≤ t.bound) (hm64 : maxPi < 2 ^ 64) (hsz : Nat.primeCounting y < size)
+    (hpp : p b * p b ≤ ITy.u64.maxVal) (hs64 : Nat.sqrt (x / p b) ≤ ITy.u64.maxVal) (hh : high ≤ t.bound + 1)
+    (hh64 : high ≤ 2 ^ 64) :
+    ∃ sc ss : ℤ, acC2Kernel k t size maxPi low high (x / max low 1) (x / high) (x / p b) y b (p b) = .ok (sc, ss) ∧
+      sc + ss = ∑ j ∈ Finset.Ioc (Nat.primeCounting (min (max (x / high / p b) (max (x / p b / (p b * p b)) (p b)))
+                    (min (x / max low 1 / p b) (min (x / p b / p b) y))))
+                  (Nat.primeCounting (min (x / max low 1 / p b) (min (x / p b / p b) y))),
+                ((Nat.primeCounting (x / p b / p j) : ℤ) - b + 2) :=
+  acC2Kernel_eq k hv hb1 hhigh hyM hmb hm64 hsz hpp hs64 hh hh64
 
 /-- **`ac_segment_additive`**: for every chain of boundaries `a = l₀ ≤ l₁ ≤ … ≤ lₙ` and every leaf set `S`, leaf position `g`,
     leaf value `F`: the per-segment sums add up to the sum over `[l₀, lₙ)` — whatever the segment sizes, whoever processed them -/
@@ -99,6 +125,11 @@ example := ac_A_chain_total_partial .ld64 (NT.build_valid 2000) (size := 18) (ma
       rw [p11] at h1
       calc 100000 / 29 / p j ≤ 100000 / 29 / 31 := Nat.div_le_div_left h1 (by norm_num)
         _ < 316 := by norm_num)
+example := ac_C2_segment_eq .ld64 (NT.build_valid 2000) (size := 18) (maxPi := 100) (low := 0) (high := 200)
+  (x := 100000) (y := 60) (b := 7) (by norm_num) (by norm_num) (by norm_num) (by show 100 ≤ 2000; norm_num) (by norm_num)
+  (by rw [show Nat.primeCounting 60 = 17 by decide]; norm_num) (by rw [p7]; decide)
+  (le_trans (Nat.sqrt_le_self _) (le_trans (Nat.div_le_self _ _) (by decide)))
+  (by show 200 ≤ 2000 + 1; norm_num) (by norm_num)
 example := ac_A_segment_eq .plain128 (NT.build_valid 2000) (size := 18) (maxPi := 100) (low := 0) (high := 150)
   (x := 100000) (y := 60) (b := 10) (by norm_num) (by norm_num) (by norm_num)
   (by rw [p10]; exact Nat.le_sqrt.2 (by norm_num))
@@ -117,6 +148,8 @@ end Pc.C08EasyAC
 #print axioms Pc.C08EasyAC.ac_A_weight_lemma
 #print axioms Pc.C08EasyAC.ac_A_segment_eq
 #print axioms Pc.C08EasyAC.ac_libdivide_eq_A
+#print axioms Pc.C08EasyAC.ac_C2_index_lemma
+#print axioms Pc.C08EasyAC.ac_C2_segment_eq
 #print axioms Pc.C08EasyAC.ac_segment_additive
 #print axioms Pc.C08EasyAC.ac_A_chain_total_partial
 #print axioms Pc.C08EasyAC.ac_A_levels_total
